@@ -376,6 +376,34 @@ class Ev:
         outs = []
         is_bool = t['op_ty'] == 'bool'
         edges = []
+        if v[0] != 'discr':
+            # arithmetic over the discriminant of one symbolic enum value (`(x as u8) >> 4`, `x as u8 == 0x11 & 0xF0`): decided per variant
+            ds = {x for x in T.subterms(v) if x[0] == 'discr'}
+            if len(ds) == 1:
+                d = next(iter(ds))
+                names = self.discr_names(d)
+                if names is not None and len(names) <= 32:
+                    per = []
+                    for dv, name in sorted(names.items()):
+                        c = T.rebuild(v, {d: T.I(dv)})
+                        if c[0] != 'int':
+                            per = None
+                            break
+                        per.append((name, c[1]))
+                    if per is not None:
+                        for name, cv in per:
+                            tg = other
+                            for x, tgt in zip(vals, targets):
+                                if x == cv:
+                                    tg = tgt
+                            s2 = st.copy()
+                            atom = ('isvar', d[1], name)
+                            if atom not in s2.pc:
+                                s2.pc.append(atom)
+                                if not solver.sat(s2.pc):
+                                    continue
+                            outs.extend(self.run(fr, tg, s2, b))
+                        return outs
         if v[0] == 'discr':
             names = self.discr_names(v)
             if names is None:
@@ -449,6 +477,17 @@ class Ev:
             if g is not None and g[0] == 'path' and g[1].isdigit():
                 return T.I(int(g[1]))
             return ('opaque', 'const generic %s' % c['unevaluated'])
+        for k in ('slice_bytes', 'ref_bytes', 'raw_bytes'):
+            if k in c:
+                # a constant of a crate-local field-less enum (e.g. a promoted `&AddressFamily::IPv4`): the variant with that discriminant
+                ty = tys.strip_refs(tys.parse(c.get('ty', '?')))
+                a = self.facts.adts.get(ty[1]) if ty[0] == 'path' else None
+                if a is not None and a.get('kind') == 'Enum' and all(not v.get('fields') for v in a['variants']):
+                    val = int.from_bytes(bytes.fromhex(c[k]), 'little')
+                    for v in a['variants']:
+                        if (v['discr'] if v['discr'] is not None else v.get('idx')) == val:
+                            return T.mk_adt(ty[1], v['name'], [])
+                    return ('opaque', 'constant of enum %s with unknown discriminant %d' % (ty[1], val))
         for k in ('slice_bytes', 'ref_bytes'):
             if k in c:
                 return ('bytes', bytes.fromhex(c[k]))
@@ -763,7 +802,9 @@ class Ev:
                 return ('arr', (v,) * n)        # a small array of non-byte elements (e.g. [""; 7]) is kept element-wise
             return ('repeat', v, T.I(n))
         if k == 'rawptr':
-            return ('opaque', 'raw pointer')
+            # `&raw const *p` appears in safe code only where a slice pattern reads the length (PtrMetadata); dereferencing it would need
+            # an unsafe block (C03.U requires none), so the pointer is as transparent as a shared reference
+            return self.read_place(fr, rv['place'], st)
         return ('opaque', 'rvalue %s' % rv.get('dbg', k))
 
     def cast(self, fr, rv, st):
@@ -833,6 +874,14 @@ class Ev:
             if ty == 'bool' and base in ('Eq', 'Ne'):
                 e = T.bor_bool(T.band_bool(a, b), T.band_bool(T.bnot(a), T.bnot(b)))
                 return e if base == 'Eq' else T.bnot(e)
+            if base in ('Eq', 'Ne'):
+                # discriminant compared with a constant: the variant test (one form for `x == E::V`, `matches!(x, E::V)` and `match x`)
+                for d, c in ((a, b), (b, a)):
+                    if d[0] == 'discr' and c[0] == 'int':
+                        names = self.discr_names(d)
+                        if names is not None:
+                            t = ('isvar', d[1], names[c[1]]) if c[1] in names else T.FALSE
+                            return t if base == 'Eq' else T.bnot(t)
             if T.is_numeric(a) or T.is_numeric(b) or ty in solver.INT_RANGES or ty == 'char':
                 return T.cmp(base, a, b)
             if base == 'Eq':
